@@ -2,6 +2,12 @@
 
 package epubdoc
 
+import (
+	"archive/zip"
+	"errors"
+	"io"
+)
+
 // VerifResolveHref exposes (*Reader).resolveHref for the verification harness:
 // href is resolved against baseDir exactly as loadChapters does it.
 func VerifResolveHref(baseDir, href string) string {
@@ -15,3 +21,31 @@ func VerifIsFontObfuscation(algorithm string) bool { return isFontObfuscation(al
 
 // VerifIsContentFile exposes isContentFile.
 func VerifIsContentFile(uri string) bool { return isContentFile(uri) }
+
+// VerifValidateMimetype exposes (*Reader).validateMimetype on an archive:
+// "ok", "invalid" (ErrInvalidMimetype), "readerr" (the member could not be
+// opened or read) or "zip" (archive/zip rejects the bytes).
+func VerifValidateMimetype(ra io.ReaderAt, size int64) string {
+	zr, err := zip.NewReader(ra, size)
+	if err != nil {
+		return "zip"
+	}
+	switch err := (&Reader{}).validateMimetype(zr); {
+	case err == nil:
+		return "ok"
+	case errors.Is(err, ErrInvalidMimetype):
+		return "invalid"
+	default:
+		return "readerr"
+	}
+}
+
+// VerifCheckForDRM exposes checkForDRM on an archive (zipErr: archive/zip
+// rejects the bytes).
+func VerifCheckForDRM(ra io.ReaderAt, size int64) (drm bool, zipErr error) {
+	zr, err := zip.NewReader(ra, size)
+	if err != nil {
+		return false, err
+	}
+	return errors.Is(checkForDRM(zr), ErrDRMProtected), nil
+}
